@@ -269,7 +269,7 @@ func VerifC11SortedSliceSet() {
 func c11CheckRing(rb *RingBuffer[int], capN int, m []int, what string) {
 	verifrt.Assert(rb.Len() == uint(len(m)), what+": Len differs from the number of retained values")
 	var got []int
-	stop := verifrt.Len(3)
+	stop := verifrt.Len(2)
 	rb.Range(func(v int) bool {
 		got = append(got, v)
 
@@ -284,12 +284,17 @@ func c11CheckRing(rb *RingBuffer[int], capN int, m []int, what string) {
 		verifrt.Assert(got[i] == m[i], what+": Range is not oldest first")
 	}
 	var rev []int
+	rstop := verifrt.Len(2)
 	rb.ReverseRange(func(v int) bool {
 		rev = append(rev, v)
 
-		return true
+		return len(rev) <= rstop
 	})
-	verifrt.Assert(len(rev) == len(m), what+": ReverseRange yields a wrong number of values")
+	rwant := len(m)
+	if rstop+1 < rwant {
+		rwant = rstop + 1
+	}
+	verifrt.Assert(len(rev) == rwant, what+": ReverseRange yields a wrong number of values (early stop not honoured?)")
 	for i := range rev {
 		verifrt.Assert(rev[i] == m[len(m)-1-i], what+": ReverseRange is not newest first")
 	}
